@@ -26,6 +26,7 @@ type c14Term struct {
 	X, Y, Mode, N int
 	Min, Max      *int `json:",omitempty"`
 	Bonus         bool `json:",omitempty"`
+	LE            bool `json:",omitempty"` // wod: successes are the dice <= Thr (q suffix) instead of >= Thr
 	Pool, Add, Sides, Thr int
 	Z   int `json:",omitempty"`
 	Val int `json:",omitempty"` // int / var value
@@ -52,6 +53,9 @@ var c14Terms = []c14Term{
 	{Src: "2d", Label: "2D3", Kind: "common", X: 2, Y: 3}, {Src: "3dk2", Label: "3D3kh2", Kind: "common", X: 3, Y: 3, Mode: 2, N: 2}, {Src: "2dq1", Label: "2D3kl1", Kind: "common", X: 2, Y: 3, Mode: 1, N: 1},
 	// drop counts beyond the dice rolled (nothing kept), and a computed value whose body contains multi-byte characters (it runs from its precompiled form)
 	{Src: "2d3dl3", Kind: "common", X: 2, Y: 3, Mode: 3, N: 3}, {Src: "1d3dh2", Kind: "common", X: 1, Y: 3, Mode: 4, N: 2}, {Src: "甲", Kind: "computed", X: 2, Y: 2, Mode: 2, N: 1, Body: "d2优势"},
+	// WoD counting dice at most N (q), and chained dice whose first link ends in a parenthesised operand followed by a blank / line break
+	{Src: "2a0m2q1", Kind: "wod", Pool: 2, Add: 0, Sides: 2, Thr: 1, LE: true}, {Src: "1a2m2q1", Kind: "wod", Pool: 1, Add: 2, Sides: 2, Thr: 1, LE: true},
+	{Src: "1d(2) d2", Kind: "chain", X: 1, Y: 2, Z: 2}, {Src: "1d(2)\nd2", Kind: "chain", X: 1, Y: 2, Z: 2},
 	{Src: "2ddl1", Label: "2D3dl1", Kind: "common", X: 2, Y: 3, Mode: 3, N: 1}, {Src: "2ddh1", Label: "2D3dh1", Kind: "common", X: 2, Y: 3, Mode: 4, N: 1}, {Src: "2dmin2", Label: "2D3min2", Kind: "common", X: 2, Y: 3, Min: ip(2)}, {Src: "2dmax2", Label: "2D3max2", Kind: "common", X: 2, Y: 3, Max: ip(2)},
 }
 
@@ -162,7 +166,7 @@ func c14TermValue(t c14Term, faces []int) (val int, used int, ok bool) {
 		}
 		return rules.CoC(faces[0], faces[1:1+t.N], t.Bonus), 1 + t.N, true
 	case "wod":
-		v, _, _, u, ok := rules.WoD(faces, t.Pool, t.Add, t.Thr, true)
+		v, _, _, u, ok := rules.WoD(faces, t.Pool, t.Add, t.Thr, !t.LE)
 		return v, u, ok
 	case "dc":
 		v, _, _, u, ok := rules.DoubleCross(faces, t.Pool, t.Add)
@@ -594,14 +598,20 @@ func c14CheckAnnotation(t c14Term, rest string, faces []int, val int) string {
 		if len(hdr) < 2 || hdr[0] != val || hdr[1] != len(faces) {
 			return fmt.Sprintf("header does not say %d/%d", val, len(faces))
 		}
-		k := 0
+		k, stars := 0, 0
 		for _, r := range parseRounds(text) {
 			for _, d := range r {
 				if k >= len(faces) || d.face != faces[k] {
 					return fmt.Sprintf("die %d listed as %d", k+1, d.face)
 				}
+				if d.star {
+					stars++
+				}
 				k++
 			}
+		}
+		if t.Kind == "wod" && stars != val {
+			return fmt.Sprintf("%d dice carry the success mark, the term's value is %d", stars, val)
 		}
 		if k != len(faces) {
 			return fmt.Sprintf("%d dice listed, %d rolled", k, len(faces))
